@@ -103,12 +103,36 @@ Inductive wres := WOk | WAlreadyExists | WBadRequest | WOther.
 Inductive ev :=
 | EWatch (kind : N)                       (* dynamicCache.Watch(objectTemplate, <object of kind>) *)
 | EFree                                   (* dynamicCache.Free(objectTemplate) *)
-| EPatchLabel (k : key)                   (* AddDynamicCacheLabel merge patch; k as addressed on the API server *)
+| ECacheHit (k : key) (d : data)          (* dynamicCache.Get found the object (hence labelled); its data *)
+| EPatchLabel (k : key) (d : data)        (* AddDynamicCacheLabel merge patch succeeded; k as addressed on the API server, d the
+                                             data of the object the API server returned (what the pass goes on with) *)
+| EPatchFail (k : key)                    (* that patch failed (object gone, fault) *)
+| EFail (site : N)                        (* a failed finalizer patch (6) or status update (9) *)
 | ECreate (k : key) (d : data) (r : wres)
 | EUpdate (k : key) (d : data) (r : wres)
 | EFinAdd | EFinRm                        (* finalizer patches on the ObjectTemplate *)
 | EStatus                                 (* Status().Update of the ObjectTemplate *)
 | EOther.                                 (* anything else the implementation does; the model never produces it *)
+
+(** What environment.Sink.GetEnvironment (environment.go:305-339) works from: the environment stored by
+    SetEnvironment (version, HyperShift section present?), and the HostedCluster objects on the API server,
+    each identified by the namespace hypershift's HostedClusterNamespace maps it to. [sk_ns] is the namespace
+    of the ObjectTemplate under study (0: cluster-scoped), for which [w_env] is the view. *)
+Record sink := { sk_ver : N; sk_hs : bool; sk_hcs : list N; sk_ns : N }.
+
+(** The HyperShift part of the environment GetEnvironment returns for a namespace:
+    0 no HyperShift section; 1 section without HostedCluster; 10 + ns: the HostedCluster of that namespace. *)
+Definition hval (k : sink) (ns : N) : N :=
+  if sk_hs k then (if negb (ns =? 0) && existsb (N.eqb ns) (sk_hcs k) then 10 + ns else 1) else 0.
+(** The environment a render sees, as one number (versions stay below 1000). It is a function of the sink
+    state NOW and of the namespace - nothing else. *)
+Definition view (k : sink) : N := sk_ver k + 1000 * hval k (sk_ns k).
+
+(** What happens around the API requests of one pass ([passx]): before the n-th request of the pass a third
+    party deletes or modifies an object, and / or the request fails. *)
+Inductive fault := FNotFound | FOther.            (* FOther: Conflict, InternalError, ... *)
+Inductive act := ADel (k : key) | APut (k : key) (d : data) | AFault (f : fault).
+Definition adv := list (N * act).
 
 (** The owner identity of the ObjectTemplate under study in the cache's owner sets. *)
 Definition me : N := 1.
@@ -148,21 +172,25 @@ Section Model.
     w_store : store;
     w_tmpl : option tmpl;
     w_watch : list (N * N);        (* Cache.informerReferences: (kind, owner) *)
-    w_env : N;                     (* environment handed to the sink *)
+    w_env : N;                     (* the environment a render of the template sees: [view (w_sink w)] along every history *)
+    w_sink : sink;
     w_pending : bool               (* a reconcile request for the template sits in the work queue (enqueued by a source event) *)
   }.
 
   Definition with_store (w : world) (st : store) : world :=
-    {| w_store := st; w_tmpl := w_tmpl w; w_watch := w_watch w; w_env := w_env w; w_pending := w_pending w |}.
+    {| w_store := st; w_tmpl := w_tmpl w; w_watch := w_watch w; w_env := w_env w; w_sink := w_sink w; w_pending := w_pending w |}.
   Definition with_tmpl (w : world) (t : option tmpl) : world :=
-    {| w_store := w_store w; w_tmpl := t; w_watch := w_watch w; w_env := w_env w; w_pending := w_pending w |}.
+    {| w_store := w_store w; w_tmpl := t; w_watch := w_watch w; w_env := w_env w; w_sink := w_sink w; w_pending := w_pending w |}.
   Definition with_watch (w : world) (wl : list (N * N)) : world :=
-    {| w_store := w_store w; w_tmpl := w_tmpl w; w_watch := wl; w_env := w_env w; w_pending := w_pending w |}.
+    {| w_store := w_store w; w_tmpl := w_tmpl w; w_watch := wl; w_env := w_env w; w_sink := w_sink w; w_pending := w_pending w |}.
   Definition with_env (w : world) (e : N) : world :=
-    {| w_store := w_store w; w_tmpl := w_tmpl w; w_watch := w_watch w; w_env := e; w_pending := w_pending w |}.
+    {| w_store := w_store w; w_tmpl := w_tmpl w; w_watch := w_watch w; w_env := e; w_sink := w_sink w; w_pending := w_pending w |}.
 
+  (** a change of the sink state or of the HostedClusters: the view follows *)
+  Definition with_sink (w : world) (k : sink) : world :=
+    {| w_store := w_store w; w_tmpl := w_tmpl w; w_watch := w_watch w; w_env := view k; w_sink := k; w_pending := w_pending w |}.
   Definition with_pending (w : world) (b : bool) : world :=
-    {| w_store := w_store w; w_tmpl := w_tmpl w; w_watch := w_watch w; w_env := w_env w; w_pending := b |}.
+    {| w_store := w_store w; w_tmpl := w_tmpl w; w_watch := w_watch w; w_env := w_env w; w_sink := w_sink w; w_pending := b |}.
 
   Definition set_invalid (t : tmpl) (i : N) : tmpl :=
     {| t_ns := t_ns t; t_sources := t_sources t; t_code := t_code t; t_gen := t_gen t; t_fin := t_fin t;
@@ -238,7 +266,7 @@ Section Model.
       let k := (s_kind s, if s_ns s =? 0 then tns else s_ns s, s_name s) in      (* :192-194 *)
       let w1 := with_watch w (add_watch (s_kind s) me (w_watch w)) in            (* :196 *)
       match cache_get (w_store w1) k with                                        (* :203 *)
-      | Some o => (w1, [EWatch (s_kind s)], SrcFound o)
+      | Some o => (w1, [EWatch (s_kind s); ECacheHit (nkey k) (o_data o)], SrcFound o)
       | None =>
           match lookup (nkey k) (w_store w1) with                                (* :206, :230 *)
           | None => if s_opt s then (w1, [EWatch (s_kind s)], SrcSkip)           (* :231-234 *)
@@ -246,7 +274,7 @@ Section Model.
           | Some o =>                                                            (* :215 AddDynamicCacheLabel *)
               let o' := set_label o in
               (with_store w1 (upsert (nkey k) o' (w_store w1)),
-               [EWatch (s_kind s); EPatchLabel (nkey k)], SrcFound o')
+               [EWatch (s_kind s); EPatchLabel (nkey k) (o_data o')], SrcFound o')
           end
       end.
 
@@ -368,14 +396,14 @@ Section Model.
                 end
             | Some ex =>
                 match copy_conds t ex with                                       (* :112-114 *)
-                | None => (w2, e1 ++ [EWatch (k_kind k)], t, rq, 4)
+                | None => (w2, e1 ++ [EWatch (k_kind k); ECacheHit (nkey k) (o_data ex)], t, rq, 4)
                 | Some cs =>
                     let t1 := set_conds t cs in
                     match update_res k with                                      (* :121 *)
                     | WOk => (with_store w2 (upsert (nkey k) (updated_target ex body) (w_store w2)),
-                              e1 ++ [EWatch (k_kind k); EUpdate k body WOk],
+                              e1 ++ [EWatch (k_kind k); ECacheHit (nkey k) (o_data ex); EUpdate k body WOk],
                               set_invalid (set_ctrlof t1 (Some k)) 0, rq, 0)     (* :125-135 *)
-                    | r => (w2, e1 ++ [EWatch (k_kind k); EUpdate k body r], t, rq, 3)
+                    | r => (w2, e1 ++ [EWatch (k_kind k); ECacheHit (nkey k) (o_data ex); EUpdate k body r], t, rq, 3)
                     end
                 end
             end
@@ -404,6 +432,180 @@ Section Model.
           else (w1, {| p_evs := e0 ++ e1; p_requeue := rq; p_err := err |})      (* :161-163 *)
     end.
 
+  (** ** The same pass with third parties and API faults between its requests.
+      The requests of a pass are numbered in program order from 0: the Get of the ObjectTemplate, the
+      finalizer patch, per source the uncached Get and the label patch (cache reads are no requests), the
+      Create / Update of the target, the status update. [a] schedules, before request n takes effect,
+      third-party deletions / modifications (the cache is taken to follow them at once) and a fault that
+      replaces the request's answer. The functions mirror the ones above; [passx [] w] is [pass w]
+      (checked by the correspondence: SPassX [] steps are generated). Beyond the events they return, per
+      processed source and in order, the data the pass read AND labelled (cache hit, or answer of a
+      successful label patch); None: the source was attempted (its kind watched) but skipped as not found, or its
+      requests failed. *)
+  Fixpoint copy_vals (items : list (N * N)) (d : data) (cfg : data) : option data :=
+    match items with
+    | [] => Some cfg
+    | (k, dst) :: r =>
+        match dlookup k d with
+        | None => None
+        | Some v => if dst =? 0 then None else copy_vals r d (dset dst v cfg)
+        end
+    end.
+
+  Definition adv_obj (o : obj) (d : data) : obj :=
+    if data_eqb (o_data o) d then o
+    else {| o_data := d; o_lbl := o_lbl o; o_ctrl := o_ctrl o; o_gen := o_gen o + 1; o_sobs := o_sobs o; o_conds := o_conds o |}.
+  Definition adv_store (a : adv) (n : N) (st : store) : store :=
+    fold_left (fun st p => if fst p =? n
+                           then match snd p with
+                                | ADel k => remove k st
+                                | APut k d => match lookup k st with Some o => upsert k (adv_obj o d) st | None => st end
+                                | AFault _ => st
+                                end
+                           else st) a st.
+  Fixpoint adv_fault (a : adv) (n : N) : option fault :=
+    match a with
+    | [] => None
+    | (m, AFault f) :: r => if m =? n then Some f else adv_fault r n
+    | _ :: r => adv_fault r n
+    end.
+  (** request n is about to take effect *)
+  Definition req (a : adv) (n : N) (w : world) : world * option fault :=
+    (with_store w (adv_store a n (w_store w)), adv_fault a n).
+
+  Inductive sresx := SXSrcErr (notfound : bool) | SXPlain (cls : N) | SXSkip | SXFound (o : obj).
+
+  (** getSourceObject; error classes of plain errors: 7 uncached Get, 8 label patch *)
+  Definition get_sourcex (a : adv) (n : N) (w : world) (tns : N) (s : source) : world * list ev * sresx * N :=
+    if pf_violation tns (s_kind s, s_ns s, s_name s) false then (w, [], SXSrcErr false, n)
+    else
+      let k := (s_kind s, if s_ns s =? 0 then tns else s_ns s, s_name s) in
+      let w1 := with_watch w (add_watch (s_kind s) me (w_watch w)) in
+      match cache_get (w_store w1) k with
+      | Some o => (w1, [EWatch (s_kind s); ECacheHit (nkey k) (o_data o)], SXFound o, n)
+      | None =>
+          let '(w2, f) := req a n w1 in                                          (* uncached Get (:230) *)
+          match f with
+          | Some FOther => (w2, [EWatch (s_kind s)], SXPlain 7, n + 1)           (* :236-239 *)
+          | _ =>
+              match (match f with Some _ => None | None => lookup (nkey k) (w_store w2) end) with
+              | None => if s_opt s then (w2, [EWatch (s_kind s)], SXSkip, n + 1)
+                        else (w2, [EWatch (s_kind s)], SXSrcErr true, n + 1)
+              | Some _ =>
+                  let '(w3, f2) := req a (n + 1) w2 in                           (* label patch (:215) *)
+                  match f2, lookup (nkey k) (w_store w3) with
+                  | None, Some o2 =>
+                      let o' := set_label o2 in
+                      (with_store w3 (upsert (nkey k) o' (w_store w3)),
+                       [EWatch (s_kind s); EPatchLabel (nkey k) (o_data o')], SXFound o', n + 2)
+                  | _, _ => (w3, [EWatch (s_kind s); EPatchFail (nkey k)], SXPlain 8, n + 2)   (* :216-218 *)
+                  end
+              end
+          end
+      end.
+
+  Inductive vresx := VXSrcErr (notfound : bool) | VXPlain (cls : N) | VXOk (cfg : data) (retry : bool).
+
+  Fixpoint get_valuesx (a : adv) (n : N) (w : world) (tns : N) (srcs : list source) (cfg : data) (retry : bool)
+    : world * list ev * vresx * N * list (option data) :=
+    match srcs with
+    | [] => (w, [], VXOk cfg retry, n, [])
+    | s :: r =>
+        match get_sourcex a n w tns s with
+        | (w1, e1, SXSrcErr nf, n1) => (w1, e1, VXSrcErr nf, n1, match e1 with [] => [] | _ => [None] end)   (* attempted iff watched *)
+        | (w1, e1, SXPlain c, n1) => (w1, e1, VXPlain c, n1, [None])
+        | (w1, e1, SXSkip, n1) =>
+            let '(w2, e2, res, n2, rs) := get_valuesx a n1 w1 tns r cfg true in (w2, e1 ++ e2, res, n2, None :: rs)
+        | (w1, e1, SXFound o, n1) =>
+            match copy_vals (s_items s) (o_data o) cfg with
+            | None => (w1, e1, VXSrcErr false, n1, [Some (o_data o)])
+            | Some cfg' =>
+                let '(w2, e2, res, n2, rs) := get_valuesx a n1 w1 tns r cfg' retry in (w2, e1 ++ e2, res, n2, Some (o_data o) :: rs)
+            end
+        end
+    end.
+
+  (** templateReconciler.Reconcile; result: world, events, in-memory template, RequeueAfter, error class, next request, reads *)
+  Definition reconcilex (a : adv) (n : N) (w : world) (t : tmpl)
+    : world * list ev * tmpl * N * N * N * list (option data) :=
+    let '(w1, e1, vr, n1, rs) := get_valuesx a n w (t_ns t) (t_sources t) [] false in
+    match vr with
+    | VXSrcErr nf => (w1, e1, set_invalid t 1, if nf then iv_res else 0, 0, n1, rs)
+    | VXPlain c => (w1, e1, t, 0, c, n1, rs)
+    | VXOk cfg retry =>
+        let rq := if retry then iv_opt else 0 in
+        match template_object t cfg (w_env w1) with
+        | TTmplErr => (w1, e1, set_invalid t 2, rq, 0, n1, rs)
+        | TYamlErr => (w1, e1, t, rq, 1, n1, rs)
+        | TSrcErr => (w1, e1, set_invalid t 1, rq, 0, n1, rs)
+        | TObj k body =>
+            let w2 := with_watch w1 (add_watch (k_kind k) me (w_watch w1)) in
+            match cache_get (w_store w2) k with
+            | None =>
+                let '(w3, f) := req a n1 w2 in                                   (* Create *)
+                match (match f with Some _ => WOther | None => create_res (w_store w3) k end) with
+                | WOk => (with_store w3 (upsert k (new_target body) (w_store w3)),
+                          e1 ++ [EWatch (k_kind k); ECreate k body WOk], set_invalid t 0, rq, 0, n1 + 1, rs)
+                | r => (w3, e1 ++ [EWatch (k_kind k); ECreate k body r], t, rq, 2, n1 + 1, rs)
+                end
+            | Some ex =>
+                match copy_conds t ex with
+                | None => (w2, e1 ++ [EWatch (k_kind k); ECacheHit (nkey k) (o_data ex)], t, rq, 4, n1, rs)
+                | Some cs =>
+                    let t1 := set_conds t cs in
+                    let '(w3, f) := req a n1 w2 in                               (* Update *)
+                    match (match f, lookup (nkey k) (w_store w3) with
+                           | None, Some _ => update_res k
+                           | _, _ => WOther end) with
+                    | WOk => (with_store w3 (upsert (nkey k) (updated_target ex body) (w_store w3)),
+                              e1 ++ [EWatch (k_kind k); ECacheHit (nkey k) (o_data ex); EUpdate k body WOk],
+                              set_invalid (set_ctrlof t1 (Some k)) 0, rq, 0, n1 + 1, rs)
+                    | r => (w3, e1 ++ [EWatch (k_kind k); ECacheHit (nkey k) (o_data ex); EUpdate k body r], t, rq, 3, n1 + 1, rs)
+                    end
+                end
+            end
+        end
+    end.
+
+  (** GenericObjectTemplateController.Reconcile; further error classes: 5 Get of the ObjectTemplate,
+      6 finalizer patch, 9 status update *)
+  Definition passx (a : adv) (w : world) : world * pres * list (option data) :=
+    let '(w0, f0) := req a 0 w in                                                (* request 0: Get *)
+    match f0 with
+    | Some FNotFound => (w0, {| p_evs := []; p_requeue := 0; p_err := 0 |}, [])  (* client.IgnoreNotFound *)
+    | Some FOther => (w0, {| p_evs := []; p_requeue := 0; p_err := 5 |}, [])
+    | None =>
+        match w_tmpl w0 with
+        | None => (w0, {| p_evs := []; p_requeue := 0; p_err := 0 |}, [])
+        | Some t =>
+            if t_del t then
+              let w1 := with_watch w0 (free_owner me (w_watch w0)) in
+              if t_fin t then
+                let '(w2, f1) := req a 1 w1 in                                   (* request 1: finalizer patch *)
+                match f1 with
+                | Some _ => (w2, {| p_evs := [EFree; EFail 6]; p_requeue := 0; p_err := 6 |}, [])
+                | None => (with_tmpl w2 None, {| p_evs := [EFree; EFinRm]; p_requeue := 0; p_err := 0 |}, [])
+                end
+              else (w1, {| p_evs := [EFree]; p_requeue := 0; p_err := 0 |}, [])
+            else
+              let '(w1, e0, n1, ferr) :=
+                if t_fin t then (w0, [], 1, false)
+                else let '(w1, f1) := req a 1 w0 in
+                     match f1 with Some _ => (w1, [EFail 6], 2, true) | None => (w1, [EFinAdd], 2, false) end in
+              if ferr then (w1, {| p_evs := e0; p_requeue := 0; p_err := 6 |}, [])
+              else
+                let t0 := set_fin t true in
+                let '(w2, e1, t1, rq, err, n2, rs) := reconcilex a n1 (with_tmpl w1 (Some t0)) t0 in
+                if err =? 0
+                then let '(w3, f3) := req a n2 w2 in                             (* status update *)
+                     match f3 with
+                     | Some _ => (w3, {| p_evs := e0 ++ e1 ++ [EFail 9]; p_requeue := rq; p_err := 9 |}, rs)
+                     | None => (with_tmpl w3 (Some t1), {| p_evs := e0 ++ e1 ++ [EStatus]; p_requeue := rq; p_err := 0 |}, rs)
+                     end
+                else (w2, {| p_evs := e0 ++ e1; p_requeue := rq; p_err := err |}, rs)
+        end
+    end.
+
   (** ** Histories *)
 
   Inductive step :=
@@ -412,11 +614,18 @@ Section Model.
   | SPoke (k : key) (sobs : option N) (cs : list cond)   (* somebody writes the object's status *)
   | SEdit (srcs : list source) (c : code)        (* the user edits the ObjectTemplate's spec *)
   | STDel                                        (* the user deletes the ObjectTemplate *)
-  | SEnv (e : N)                                 (* the environment manager hands a new environment to the sink *)
+  | SEnv (e : N)                                 (* the environment manager hands a new environment (version) to the sink *)
+  | SHyper (b : bool)                            (* ... with / without the HyperShift section *)
+  | SHc (ns : N) (present : bool)                (* the HostedCluster mapping to namespace ns is created / deleted *)
+  | SAux (ns : N)                                (* the same controller reconciles ANOTHER ObjectTemplate, in namespace ns, whose
+                                                    template prints the HyperShift part of its environment *)
+  | SPassX (a : adv)                             (* a Reconcile during which third parties act and requests fail, see [passx] *)
   | SPass                                        (* one Reconcile of the ObjectTemplate, whatever triggered it *)
   | SDrain.                                      (* the controller's worker: a Reconcile iff a request is pending *)
 
-  Inductive sobs := OPass (r : pres) | OEnq (b : bool) | ONone.
+  Inductive sobs := OPass (r : pres) | OEnq (b : bool) | ONone
+                  | OAux (h : N)                          (* what the other template rendered for the HyperShift part *)
+                  | OPassX (r : pres) (reads : list (option data)).   (* + per source, in order: the data read-and-labelled, if any *)
 
   Definition new_obj (d : data) (lbl : label) : obj :=
     {| o_data := d; o_lbl := lbl; o_ctrl := 0; o_gen := 1; o_sobs := None; o_conds := [] |}.
@@ -465,7 +674,14 @@ Section Model.
         | Some t => if t_fin t then (with_tmpl w (Some (set_del t true)), ONone)   (* finalizer-delayed deletion *)
                     else (with_tmpl w None, ONone)
         end
-    | SEnv e => (with_env w e, ONone)
+    | SEnv e => (with_sink w {| sk_ver := e; sk_hs := sk_hs (w_sink w); sk_hcs := sk_hcs (w_sink w); sk_ns := sk_ns (w_sink w) |}, ONone)
+    | SHyper b => (with_sink w {| sk_ver := sk_ver (w_sink w); sk_hs := b; sk_hcs := sk_hcs (w_sink w); sk_ns := sk_ns (w_sink w) |}, ONone)
+    | SHc ns b =>
+        let rest := filter (fun x => negb (x =? ns)) (sk_hcs (w_sink w)) in
+        (with_sink w {| sk_ver := sk_ver (w_sink w); sk_hs := sk_hs (w_sink w); sk_hcs := if b then ns :: rest else rest;
+                        sk_ns := sk_ns (w_sink w) |}, ONone)
+    | SAux ns => (w, OAux (hval (w_sink w) ns))
+    | SPassX a => let '(w', r, reads) := passx a w in (with_pending w' false, OPassX r reads)
     | SPass => let '(w', r) := pass w in (with_pending w' false, OPass r)      (* the pass serves the pending request *)
     | SDrain => if w_pending w then let '(w', r) := pass w in (with_pending w' false, OPass r) else (w, ONone)
     end.
@@ -537,12 +753,22 @@ Section Model.
     | _ => None
     end.
 
+  (** The config a pass must have rendered with, given what it read: per source, in order, the data read and
+      labelled; a source without a read must be optional. *)
+  Fixpoint cfg_of_reads (srcs : list source) (reads : list (option data)) (cfg : data) : option data :=
+    match srcs, reads with
+    | [], [] => Some cfg
+    | s :: r, Some d :: rr => match copy_vals (s_items s) d cfg with Some c => cfg_of_reads r rr c | None => None end
+    | s :: r, None :: rr => if s_opt s then cfg_of_reads r rr cfg else None
+    | _, _ => None
+    end.
+
   Definition is_target_write (e : ev) : bool :=
     match e with ECreate _ _ WOk | EUpdate _ _ WOk => true | _ => false end.
   Definition target_writes (evs : list ev) : list (key * data) :=
     flat_map (fun e => match e with ECreate k d WOk | EUpdate k d WOk => [(k, d)] | _ => [] end) evs.
   Definition label_patches (evs : list ev) : list key :=
-    flat_map (fun e => match e with EPatchLabel k => [k] | _ => [] end) evs.
+    flat_map (fun e => match e with EPatchLabel k _ => [k] | _ => [] end) evs.
   Definition watch_calls (evs : list ev) : list N :=
     flat_map (fun e => match e with EWatch kd => [kd] | _ => [] end) evs.
 End Model.
